@@ -2,6 +2,7 @@ import PymtlVerif.Proofs.Nets
 import PymtlVerif.Proofs.NetsElab
 import PymtlVerif.Proofs.NetsDfs
 import PymtlVerif.Proofs.NetsWalk
+import PymtlVerif.Proofs.NetsFunc
 /-!
 # C09 — structurally illegal designs are always rejected at elaboration
 
@@ -193,6 +194,40 @@ theorem port_walk_spec (D : Design) (hwf : D.WF) (st : RState) (hr : resolve D =
     have r : Reach D.edges w y := reach_trans (reach_symm hrw) ((hspec y).mp hy)
     exact walk_complete hadj hnd N w hwN closedN y (ofE r) hne
 
+/-! ### `@s.func` helper functions -/
+
+/-- the functions whose reads and writes are folded into an update block are exactly those reached
+from the block's direct calls by a chain of calls (fuel = number of functions always suffices) -/
+theorem helpers_reached (H : HDesign) (hc : H.CallsOk) (roots : List Nat) (f : Nat) :
+    f ∈ H.reached roots ↔ ∃ r ∈ roots, DReach H.callees r f :=
+  H.mem_reached hc roots f
+
+/-- in the design the structural checks see, a block writes what it writes itself and what any
+function it reaches writes — however many call paths lead there and whichever other block reaches
+the same function -/
+theorem helpers_flatten_writes (H : HDesign) (hc : H.CallsOk) (b o : Nat) :
+    (b, o) ∈ H.flatten.writes ↔
+      ((b, o) ∈ H.base.writes ∨
+        (b < H.base.blks.length ∧ ∃ r ∈ H.bcalls.getD b [], ∃ f, DReach H.callees r f ∧ o ∈ (H.funcs.getD f default).writes)) :=
+  H.flatten_writes hc b o
+
+/-- with helper functions: operator rules on the blocks' own statements, then call cycles
+(`InvalidFuncCallError`), then the verdict of the flattened design -/
+theorem helpers_verdict (H : HDesign) (h1 : opErrs H.base = []) :
+    (H.callCycle = true → (elaborateH H).verdict = some .invalidFuncCall) ∧
+    (H.callCycle = false → elaborateH H = elaborate H.flatten) := by
+  unfold elaborateH
+  simp only [h1, List.isEmpty_nil, Bool.not_true, Bool.false_eq_true, if_false]
+  constructor
+  · intro h; simp [h, Outcome.verdict]
+  · intro h; simp [h]
+
+theorem helpers_wf (H : HDesign) (h : H.wf = true) : H.CallsOk ∧ H.flatten.WF := by
+  refine ⟨H.callsOk_of_wf h, wf_sound ?_⟩
+  unfold HDesign.wf at h
+  simp only [Bool.and_eq_true] at h
+  exact h.1.1.1
+
 /-- what the driver checks before it answers implies the well-formedness the theorems assume -/
 theorem wf_checked (D : Design) (h : D.wf = true) : D.WF := wf_sound h
 
@@ -222,6 +257,14 @@ def exType6 : Design :=
     blks := [⟨1, false, [(0, .at)], []⟩] }
 example : (elaborate exType6).verdict = some (.signalType 6) := by decide
 example : opErr true .ff false = some .updateFFNonTop := by decide
+/-- `up_a -> fa -> drive`, `up_b -> fb -> drive`, `drive` writes object 0: two drivers -/
+def exHelpers : HDesign :=
+  { base := { objs := [⟨0, .outp, 0, [], none⟩], par := [none], conns := [], blks := [⟨0, false, [], []⟩, ⟨0, false, [], []⟩] },
+    funcs := [⟨[0], [], []⟩, ⟨[], [], [0]⟩, ⟨[], [], [0]⟩], bcalls := [[1], [2]] }
+example : exHelpers.wf = true := by decide
+example : (elaborateH exHelpers).verdict = some .multiWriter := by decide
+example : (elaborateH { exHelpers with bcalls := [[1, 2], []] }).verdict = none := by decide
+example : (elaborateH { exHelpers with funcs := [⟨[0], [], [1]⟩, ⟨[], [], [0]⟩, ⟨[], [], [0]⟩] }).verdict = some .invalidFuncCall := by decide
 /-- a second write with a wrong operator to a signal the block already wrote legally is rejected, in
 either statement order, and so is a `for` target -/
 def exSecondWrite (ops : List Op) : Design :=
